@@ -122,7 +122,7 @@ def apply_indels(anc, indels, which):
 
 
 def gen(rng, k, ns, flank_repeat=False):
-    same_event = rng.random() < 0.25
+    same_event = rng.random() < 0.3 and not flank_repeat
     for _ in range(300):
         nind = rng.randint(1, 3) if not same_event else rng.randint(2, 3)
         L = 8 * k + (nind - 1) * (4 * k + rng.randint(0, k)) + rng.randint(0, 2 * k)
@@ -140,7 +140,7 @@ def gen(rng, k, ns, flank_repeat=False):
         carriers = []
         for s in sites:
             ln = rng.randint(1, min(10, k - 1))
-            kind = rng.choice(['ins', 'del'])
+            kind = rng.choice(['ins', 'del']) if not same_event else 'ins'
             if flank_repeat == 'palin':
                 # the carrier-side (insertion) or ancestor-side (deletion) sequence around the junction is L.m.rc(L):
                 # a window whose two arms are reverse complements of each other spans the indel
@@ -317,6 +317,9 @@ def run_case(desc, ctx):
     res.count('planted:' + pop, len(indels))
     stratum = 'threads=%d,indels=%d' % (desc['threads'], len(indels))
     res.count('planted:' + stratum, len(indels))
+    same_ins = len(indels) > 1 and indels[0][1] == 'ins' and all(x[1] == 'ins' and x[3] == indels[0][3] for x in indels) and all(c == carriers[0] for c in carriers)
+    if same_ins:
+        res.count('planted:same-insertion-at-several-loci', len(indels))
     res.count('insertions', sum(1 for x in indels if x[1] == 'ins'))
     res.count('deletions', sum(1 for x in indels if x[1] == 'del'))
     matched = set()
@@ -373,6 +376,8 @@ def run_case(desc, ctx):
     res.count('reported_planted', len(matched))
     res.count('reported_planted:' + pop, len(matched))
     res.count('reported_planted:' + stratum, len(matched))
+    if same_ins:
+        res.count('reported_planted:same-insertion-at-several-loci', len(matched))
     res.nontrivial.append(fingerprint([k, ss]))
     if res.sample is None:
         res.sample = {'k': k, 'samples': ns, 'ancestor_length': len(anc), 'indels': indels, 'carriers': carriers, 'records': [r[:4] for r in recs]}
@@ -390,7 +395,7 @@ def finalize(tier, counters, sets):
                     'detail': None})
     # the same statistic on each population of inputs (random indels; indels that repeat their flank), when large enough
     strata = sorted(x[len('planted:'):] for x in counters if x.startswith('planted:threads='))
-    for pop in ['plain', 'flank', 'palin'] + strata:
+    for pop in ['plain', 'flank', 'palin', 'same-insertion-at-several-loci'] + strata:
         pl, fo = counters.get('planted:' + pop, 0), counters.get('reported_planted:' + pop, 0)
         if pl >= (500 if pop in ('plain', 'flank', 'palin') else 300) and fo * 10 < pl * 9:
             out.append({'signature': 'C18:recall:' + pop, 'what': 'only %d of %d planted %s indels reported (%.1f%% < 90%%)' % (fo, pl, pop, 100.0 * fo / pl),
